@@ -193,6 +193,14 @@ def generate(rng):
             if faulty and bonds and rng.random() < 0.2:
                 bonds[rng.randrange(len(bonds))][rng.randrange(2)] = rng.choice([n, n + 3, -n - 1, -2 * n - 2])
             op = {"op": "new", "dst": dst, "n": n, "bonds": bonds, "cols": rng.choice([2, 3, 3]), "dtype": rng.choice(["int64", "int32", "int64"])}
+            if bonds and rng.random() < 0.35:
+                # other integer dtypes a caller may hold (uint32 is what as_array() hands out); only where every value and
+                # the atom count fit the type
+                vals = [v for b in bonds for v in b] + [n]
+                cands = [d for d in ("uint32", "uint64", "uint16", "uint8", "int16", "int8")
+                         if np.iinfo(d).min <= min(vals) and max(vals) <= np.iinfo(d).max]
+                if cands:
+                    op["dtype"] = rng.choice(cands)
             if rng.random() < 0.4:
                 # memory layout of the (n,2)/(n,3) array: column-major, forced C order, a strided view, read-only
                 op["layout"] = rng.choice(["F", "F", "C", "rev", "ro"])
